@@ -150,6 +150,47 @@ def run(ctx):
         pass
     ctx.floor(rule, 4)
 
+    # the verification message: f(r), g(r) interpolated over the n-point domain and h(r) over the WHOLE 2n-point buffer, all at the
+    # same query point (an evaluation of h that leaves out a coefficient accepts h = f*g + c*X^(2n-1))
+    rule = "R-C19.G.verify-message"
+    try:
+        f = ctx.fn(rule, name="generate_verification_message", id_re=r"^vdaf::prio2::server::generate_verification_message$")
+        g = ctx.guards(f)
+        key = "%s:%s" % (rule, f.id)
+        oks = [rd for rd in g.retdefs if rd.kind == "ok" and rd.payload is not None]
+        good = False
+        detail = ""
+        if len(oks) == 1 and oks[0].payload[0] == "agg" and len(oks[0].payload) > 3 and oks[0].payload[3]:
+            flds = dict(zip(oks[0].payload[3], oks[0].payload[2]))
+            n_of = Call("next_power_of_two", Bin("Add", Arg(1), Lit(1), commutative=True))
+            half = lambda e: Call("poly_interpret_eval", Call("index", Any(), Agg("RangeTo", n_of)), Arg(2), Any())(e)
+            full = lambda e: Call("poly_interpret_eval", lambda x: isinstance(x, tuple) and x[0] in ("phi", "param") , Arg(2), Any())(e)
+            detail = "; ".join("%s = %s" % (k, fmt(v)[:90]) for k, v in flds.items())
+            good = set(flds) == {"f_r", "g_r", "h_r"} and half(flds["f_r"]) and half(flds["g_r"]) and full(flds["h_r"])
+        if good:
+            ctx.ok(rule, key, "f_r, g_r = interpolate-and-evaluate over n points, h_r over the whole 2n-point buffer, all at eval_at", loc=f.loc)
+        else:
+            ctx.bad(rule, key, "the verification message is not (f(r), g(r) over n points; h(r) over all 2n points) at the query point: %s" % detail, loc=f.loc)
+    except Skip:
+        pass
+    ctx.floor(rule, 1)
+
+    # the collector refuses only what merge refuses (a mismatched share): any other refusal makes some honest batch fail
+    rule = "R-C19.G.unshard"
+    try:
+        f = ctx.fn(rule, name="unshard", trait="Collector", self_adt="vdaf::prio2::Prio2")
+        g = ctx.guards(f)
+        key = "%s:%s:refuses-only-through-merge" % (rule, f.id)
+        errs = [rd for rd in g.retdefs if rd.kind == "err"]
+        stray = [rd for rd in errs if not (rd.expr is not None and Mentions(Call("merge"))(rd.expr))]
+        if errs and not stray:
+            ctx.ok(rule, key, "every Err of Prio2::unshard is merge's", loc=f.loc)
+        else:
+            ctx.bad(rule, key, "Prio2::unshard can refuse for a reason other than a mismatched aggregate share: %s" % [fmt(rd.expr)[:100] for rd in stray], loc=f.loc)
+    except Skip:
+        pass
+    ctx.floor(rule, 1)
+
     rule = "R-C19.G.query-point"
     try:
         f = ctx.fn(rule, name="choose_eval_at", self_adt="vdaf::prio2::Prio2")
